@@ -260,15 +260,14 @@ Outcome(variant, k, form, units) ==
 Case(assign, units, usys, gen) == [assign |-> assign, units |-> units, usys |-> usys, gen |-> gen]
 Nothing == [k \in OptIdx |-> "omitted"]
 UnitChoices == {<<"absent", "si">>, <<"obj", "cgs">>, <<"dict", "mix">>, <<"dict", "si">>}
-Singles == {Case([Nothing EXCEPT ![k] = f], uc[1], uc[2], "none") :
-               k \in OptIdx, f \in UNION {FormsOf(Options[j].cls) : j \in OptIdx}, uc \in UnitChoices}
-SinglesOK == {c \in Singles : \A k \in OptIdx : c.assign[k] = "omitted" \/ c.assign[k] \in FormsOf(Options[k].cls)}
-PairsOf(uc) == {Case([[Nothing EXCEPT ![k1] = f1] EXCEPT ![k2] = f2], uc[1], uc[2], "none") :
-                  k1 \in OptIdx, k2 \in OptIdx, f1 \in UNION {FormsOf(Options[j].cls) : j \in OptIdx},
-                  f2 \in UNION {FormsOf(Options[j].cls) : j \in OptIdx}}
-PairsOK == {c \in PairsOf(<<"obj", "cgs">>) \cup PairsOf(<<"absent", "si">>) :
-               /\ Cardinality(Supplied(c)) = 2
-               /\ \A k \in Supplied(c) : c.assign[k] \in FormsOf(Options[k].cls)}
+OF == {<<k, f>> : k \in OptIdx, f \in {"str", "py_int", "py_float", "np_int", "np_float", "str_with_unit",
+                                         "true", "false", "names_str", "names_obj", "list_py", "np_array",
+                                         "list_str", "list_mixed", "ph_empty", "ph_gas", "ph_all"}}
+OFok == {kf \in OF : kf[2] \in FormsOf(Options[kf[1]].cls)}          \* (option, form) pairs that exist
+SinglesOK == {Case([Nothing EXCEPT ![kf[1]] = kf[2]], uc[1], uc[2], "none") : kf \in OFok, uc \in UnitChoices}
+PairUnitChoices == {<<"obj", "cgs">>, <<"absent", "si">>}
+PairsOK == {Case([[Nothing EXCEPT ![x[1][1]] = x[1][2]] EXCEPT ![x[2][1]] = x[2][2]], uc[1], uc[2], "none") :
+               x \in {y \in OFok \X OFok : y[1][1] < y[2][1]}, uc \in PairUnitChoices}
 \* every option supplied, one "uniform" flavour per case
 Uniform(flavour) ==
    [k \in OptIdx |->
